@@ -7,6 +7,7 @@ package c01
 import (
 	"context"
 	"fmt"
+	"net"
 	"os"
 	"sort"
 	"strings"
@@ -24,6 +25,9 @@ import (
 	"verifkit/prng"
 	"verifkit/rep"
 )
+
+// gRep is the shard's reporter (set once by TestVerif before any case runs).
+var gRep *rep.Reporter
 
 const (
 	groupExhaustive = 0         // 4 x 4096 single-attempt plans for 2 recipients
@@ -204,6 +208,15 @@ func enqueueAndWait(t *testing.T, sc *scenario, target, bounce module.DeliveryTa
 	ctx := context.Background()
 	for _, m := range sc.Msgs {
 		meta := &module.MsgMetadata{ID: m.ID, OriginalFrom: m.From, SMTPOpts: smtp.MailOptions{UTF8: m.UTF8}}
+		// EHLO name of the submitting client: drawn from (message id) alone so that no other draw moves.
+		if m.Ehlo == "" {
+			m.Ehlo = drawEhlo(gRep.Seed(), m.ID)
+		}
+		if m.Ehlo != "-" {
+			meta.Conn = &module.ConnState{Proto: "ESMTP", Hostname: m.Ehlo, RemoteAddr: &net.TCPAddr{IP: net.IPv4(192, 0, 2, 10), Port: 4242}, LocalAddr: &net.TCPAddr{IP: net.IPv4(192, 0, 2, 1), Port: 25}}
+			gRep.Count("messages_with_client_connection_metadata", 1)
+			gRep.Count("ehlo_class_"+ehloClass(m.Ehlo), 1)
+		}
 		if m.Orig != nil {
 			meta.OriginalRcpts = map[string]string{}
 			for k, v := range m.Orig {
@@ -597,6 +610,7 @@ func sampledCase(seed uint64, k int) (*scenario, *plan) {
 
 func TestVerif(t *testing.T) {
 	r := rep.Open("C01")
+	gRep = r
 	defer r.Close()
 	queue.VerifSetDontRecover(false)
 	mlog.DefaultLogger.Out = globalLog.output()
